@@ -152,8 +152,8 @@ theorem winv_step (c : Cfg) (e : Env) (w : CW) (o : HOp) (hw : WInv c e w) (hm :
       s'.botOut = w.s.botOut → s'.botIn = w.s.botIn → s'.nextT = w.s.nextT → s'.nextB = w.s.nextB →
       s'.asked = w.s.asked → s'.forwarded = w.s.forwarded → s'.tdel = w.s.tdel → s'.mdel = w.s.mdel →
       (∀ k ∈ s'.ctlIn, k = .flush ∨ (k = .restart ∧ s'.flushing = true)) →
-      ∀ aw, WInv c e { w with s := s', awake := aw } := by
-    intro s' e1 e2 e3 e4 e5 e6 e7 e8 e9 e10 e11 e12 hc aw
+      ∀ aw sc ak, WInv c e { w with s := s', awake := aw, sentCtl := sc, ackSeen := ak } := by
+    intro s' e1 e2 e3 e4 e5 e6 e7 e8 e9 e10 e11 e12 hc aw sc ak
     refine ⟨hw.t.of_eq e1 e2 e3 e4 e5 e6 e7 e8, ?_, ?_, ?_, ?_, hc⟩
     · show ∀ q ∈ w.envT, q ∈ s'.asked
       rw [e9]; exact hw.eT
